@@ -253,28 +253,45 @@ func buildInterp(ntok int, reward []any) interpCode {
 	a.syscall(interopnames.SystemStorageGetContext)
 	a.syscall(interopnames.SystemStorageGet)
 	a.ops(opcode.STLOC3)
+	// other sources of the value: Storage.Find iterators (values only / the value of the [key, value] struct / the
+	// key of a keys-only iterator) and the script of the transaction (System.Runtime.GetScriptContainer)
+	for _, src := range []struct{ variant, opts int64 }{{10, 4}, {12, 0}, {13, 1}} {
+		lbl := fmt.Sprintf("ed_src%d", src.variant)
+		ldNode()
+		a.pick(2)
+		a.int(src.variant)
+		a.ops(opcode.NUMEQUAL)
+		a.jmp(opcode.JMPIFNOTL, lbl)
+		a.int(src.opts)
+		ldNode()
+		a.pick(1)
+		a.syscall(interopnames.SystemStorageGetContext)
+		a.syscall(interopnames.SystemStorageFind)
+		a.ops(opcode.DUP)
+		a.syscall(interopnames.SystemIteratorNext)
+		a.jmp(opcode.JMPIFL, lbl+"v")
+		a.ops(opcode.DROP)
+		a.jmp(opcode.JMPL, "loop")
+		a.label(lbl + "v")
+		a.syscall(interopnames.SystemIteratorValue)
+		if src.variant == 12 {
+			a.ops(opcode.PUSH1, opcode.PICKITEM)
+		}
+		a.ops(opcode.STLOC3)
+		a.jmp(opcode.JMPL, "ed_have")
+		a.label(lbl)
+	}
 	ldNode()
 	a.pick(2)
-	a.int(10)
+	a.int(14)
 	a.ops(opcode.NUMEQUAL)
 	a.jmp(opcode.JMPIFNOTL, "ed_have")
-	a.int(4) // FindValuesOnly
-	ldNode()
-	a.pick(1)
-	a.syscall(interopnames.SystemStorageGetContext)
-	a.syscall(interopnames.SystemStorageFind)
-	a.ops(opcode.DUP)
-	a.syscall(interopnames.SystemIteratorNext)
-	a.jmp(opcode.JMPIFL, "ed_itval")
-	a.ops(opcode.DROP)
-	a.jmp(opcode.JMPL, "loop")
-	a.label("ed_itval")
-	a.syscall(interopnames.SystemIteratorValue)
-	a.ops(opcode.STLOC3)
+	a.syscall(interopnames.SystemRuntimeGetScriptContainer)
+	a.ops(opcode.PUSH7, opcode.PICKITEM, opcode.STLOC3)
 	a.label("ed_have")
 	a.ops(opcode.LDLOC3, opcode.ISNULL)
 	a.jmp(opcode.JMPIFL, "loop")
-	const nEditVariants = 12
+	const nEditVariants = 15
 	for k := 0; k < nEditVariants; k++ {
 		ldNode()
 		a.pick(2)
@@ -288,7 +305,7 @@ func buildInterp(ntok int, reward []any) interpCode {
 	for k := 0; k < nEditVariants; k++ {
 		a.label(fmt.Sprintf("ed%d", k))
 		switch k {
-		case 0, 10: // value ++ empty
+		case 0, 10, 12, 13, 14: // value ++ empty
 			a.ops(opcode.LDLOC3)
 			a.bytes([]byte{})
 			a.ops(opcode.CAT)
